@@ -230,7 +230,8 @@ u_values32(uint64_t idx, void *arg)
     uint64_t n = 0;
     if (vh_tier) {
         uint64_t lo = idx << 20, hi = lo + (1u << 20);
-        for (uint64_t v = lo; v < hi; v++, n++) {
+        uint64_t step = vh_light ? 37 : 1;
+        for (uint64_t v = lo + (step > 1 ? idx % step : 0); v < hi; v += step, n++) {
             vh_cur[0] = v;
             roundtrip(t, v);
         }
